@@ -64,6 +64,22 @@ def run(repo, rep, tier):
     from . import c14
     L.borrow(repo, rep, "R20.1", "C14", c14._publish, ("registry-key",))
     L.option_defaults_rule(repo, rep, "R20.1", ("mode", "encoding"))
+    # a bare '$name' is ordinary text unless the expression type says that
+    # braces are optional: the pattern is chosen by braces_required
+    ii = repo.func("chameleon.compiler.Interpolator.__init__")
+    sel = [a.value for a in ast.walk(ii.node) if isinstance(a, ast.Assign)
+           and src(a.targets[0]) == "self.regex"
+           and isinstance(a.value, ast.IfExp)]
+    oks = bool(sel)
+    for v in sel:
+        pt, flip = L._CanonIf._pos(v.test)
+        on = v.orelse if flip else v.body
+        if src(pt) != "braces_required" or \
+                "braces_required_regex" not in src(on):
+            oks = False
+    rep.check(oks, "R20.2", ii.qualname, "the pattern that requires braces "
+              "is used exactly when braces are required",
+              construct="regex-by-braces-required", where=L.where(ii))
     L.state_rule(repo, rep)
 
 
